@@ -285,7 +285,8 @@ pub fn run_property<W: World>(cfg: &RunCfg) -> Report {
         .with("distinct_values", J::u(batch.distinct_values))
         .with("values_sampled_runs", J::u(batch.values_sampled_runs))
         .with("cells_reached", J::u(all_cells.cells_set()))
-        .with("cells_possible", J::u(W::cell_bits() as u64))
+        .with("cells_possible", J::u(W::cells_reachable().unwrap_or(W::cell_bits() as u64)))
+        .with("cells_possible_is_exact", J::Bool(W::cells_reachable().is_some()))
         .with("op_bigrams_seen", J::u(bigrams_seen))
         .with("op_bigrams_possible", J::u((nk * nk) as u64))
         .with("ops_by_kind_after_first", kinds)
@@ -355,4 +356,44 @@ pub fn replay<W: World>(file: &J, path: &Path, machine: bool) -> i32 {
 pub fn read_json(path: &Path) -> Result<J, String> {
     let text = std::fs::read_to_string(path).map_err(|e| format!("{}: {}", path.display(), e))?;
     json::parse(&text).map_err(|e| format!("{}: {}", path.display(), e))
+}
+
+/// Harness self-test: a replay file must carry a history faithfully. For many seeded
+/// histories, writing the operations to JSON text, parsing them back and executing
+/// them must give the same event-log digest as executing the originals.
+pub fn selftest<W: World>(seed: u64, runs: u64) -> Result<u64, String> {
+    let mut checked = 0u64;
+    for i in 0..runs {
+        let ops = regenerate::<W>(seed, i);
+        let mut o1 = Obs::for_world::<W>();
+        let a = run_one::<W>(&ops, &mut o1);
+        let text = ops_json::<W>(&ops).pretty();
+        let back = json::parse(&text).map_err(|e| format!("{} run {}: {}", W::id(), i, e))?;
+        let mut ops2: Vec<W::Op> = Vec::new();
+        for j in back.as_arr().ok_or("not an array")? {
+            ops2.push(W::op_from_json(j).map_err(|e| format!("{} run {}: {}", W::id(), i, e))?);
+        }
+        let mut o2 = Obs::for_world::<W>();
+        let b = run_one::<W>(&ops2, &mut o2);
+        if a.digest != b.digest || a.steps != b.steps || a.violation.is_some() != b.violation.is_some() {
+            return Err(format!("{} run {}: digest {:#x} became {:#x} after a JSON round trip", W::id(), i, a.digest, b.digest));
+        }
+        checked += 1;
+    }
+    for (name, ops) in W::directed() {
+        let mut o1 = Obs::for_world::<W>();
+        let a = run_one::<W>(&ops, &mut o1);
+        let back = json::parse(&ops_json::<W>(&ops).compact()).map_err(|e| format!("{} '{}': {}", W::id(), name, e))?;
+        let mut ops2: Vec<W::Op> = Vec::new();
+        for j in back.as_arr().ok_or("not an array")? {
+            ops2.push(W::op_from_json(j).map_err(|e| format!("{} '{}': {}", W::id(), name, e))?);
+        }
+        let mut o2 = Obs::for_world::<W>();
+        let b = run_one::<W>(&ops2, &mut o2);
+        if a.digest != b.digest {
+            return Err(format!("{} directed '{}': digest changed after a JSON round trip", W::id(), name));
+        }
+        checked += 1;
+    }
+    Ok(checked)
 }
